@@ -462,6 +462,77 @@ func TestPropConcurrentUse(t *testing.T) {
 				rec.Class("parse-with-warnings-round")
 			}
 		}
+		// (d) what a parse returns does not depend on what this process parsed before: two documents that
+		// differ only in how one mapping key is written - plain, so that it reads as a number or boolean
+		// and is canonicalised, or quoted, a string kept as written - parsed one after the other in a
+		// drawn order and then concurrently; each must give ITS key, whatever came first
+		{
+			var keyText string
+			switch rapid.IntRange(0, 5).Draw(t, "lookalike") {
+			case 0:
+				keyText = fmt.Sprintf("0x%X", rapid.IntRange(10, 1<<30).Draw(t, "hex"))
+			case 1:
+				keyText = fmt.Sprintf("0o%o", rapid.IntRange(8, 1<<30).Draw(t, "oct"))
+			case 2:
+				keyText = fmt.Sprintf("%d_%03d", rapid.IntRange(1, 999).Draw(t, "us1"), rapid.IntRange(0, 999).Draw(t, "us2"))
+			case 3:
+				keyText = fmt.Sprintf("0%o", rapid.IntRange(8, 1<<30).Draw(t, "lead0")) // YAML 1.1 octal
+			case 4:
+				keyText = fmt.Sprintf("+%d", rapid.IntRange(0, 1<<30).Draw(t, "plus"))
+			default:
+				keyText = rapid.SampledFrom([]string{"True", "FALSE", "TRUE", "False"}).Draw(t, "boolish")
+			}
+			var kn yaml.Node
+			if err := yaml.Unmarshal([]byte(keyText), &kn); err != nil || len(kn.Content) != 1 {
+				t.Fatalf("harness: key text %q: %v", keyText, err)
+			}
+			wantPlain, cerr := doc.CanonKey(kn.Content[0])
+			if cerr != nil {
+				t.Fatalf("harness: CanonKey(%q): %v", keyText, cerr)
+			}
+			docs := map[bool]string{
+				true:  "steps: []\nx:\n  " + keyText + ": 1\n",
+				false: "steps: []\nx:\n  \"" + keyText + "\": 1\n",
+			}
+			want := map[bool]string{true: wantPlain, false: keyText}
+			parseKey := func(plain bool) string {
+				p, err := pipeline.Parse(strings.NewReader(docs[plain]))
+				if p == nil || (err != nil && !warning.Is(err)) {
+					return fmt.Sprintf("parse error: %v", err)
+				}
+				m, ok := p.RemainingFields["x"].(*ordered.MapSA)
+				if !ok {
+					return fmt.Sprintf("x is %T", p.RemainingFields["x"])
+				}
+				got := "<no key>"
+				m.Range(func(k string, _ any) error { got = k; return nil })
+				return got
+			}
+			first := rapid.Bool().Draw(t, "plainfirst")
+			for _, plain := range []bool{first, !first, first} {
+				if got := parseKey(plain); got != want[plain] {
+					t.Fatalf("parsing %q gives the key %q, expected %q - after this process had parsed the other spelling of the key (plain first: %v)", docs[plain], got, want[plain], first)
+				}
+			}
+			startD := make(chan struct{})
+			gots := make([]string, workers)
+			for i := 0; i < workers; i++ {
+				wg.Add(1)
+				go func(i int) {
+					defer wg.Done()
+					<-startD
+					gots[i] = parseKey(i%2 == 0)
+				}(i)
+			}
+			close(startD)
+			wg.Wait()
+			for i, got := range gots {
+				if got != want[i%2 == 0] {
+					t.Fatalf("goroutine %d parsing %q got the key %q, expected %q (another goroutine parsed the other spelling at the same time)", i, docs[i%2 == 0], got, want[i%2 == 0])
+				}
+			}
+			rec.Class("lookalike-key-twins")
+		}
 		nt := tomb && len(shared) >= 1
 		rec.Case(ev.Hash(d.YAML, mBefore), nt, "key="+kp.Kind, fmt.Sprintf("tombstones=%v", tomb), fmt.Sprintf("gomaxprocs=%d", runtime.GOMAXPROCS(0)))
 		rec.ClassN("goroutine-runs", 2*workers)
